@@ -45,9 +45,16 @@ def returns(fnode):
 
 
 def kind_of_return(fnode, r):
-    v = r.value
+    return _kind_of_value(fnode, r.value)
+
+
+def _kind_of_value(fnode, v):
     if v is None or (isinstance(v, ast.Constant) and v.value is None):
         return "none"
+    if isinstance(v, ast.IfExp):
+        # `None if value is None else list(value)`: the kind of the branch that is not None
+        kinds = {_kind_of_value(fnode, v.body), _kind_of_value(fnode, v.orelse)} - {"none"}
+        return kinds.pop() if len(kinds) == 1 else ("none" if not kinds else "other")
     if isinstance(v, ast.Call) and norm(v.func) in ("list", "tuple"):
         return norm(v.func)
     if isinstance(v, ast.ListComp):
